@@ -21,8 +21,9 @@ EXTENDS JqUtil
 
 CONSTANTS CallLimit,   \* frames above the root that may exist (code: 4096)
           Fuel,        \* number of TRUE condition outcomes TLC may choose
-          NextOutsidePattern  \* subset of {"ends-rule", "runtime-error"}: what `next`
-                              \* may do in BEGIN/END/BEGINFILE/ENDFILE (statement: open)
+          NextOutsidePattern  \* subset of {"ends-rule", "runtime-error"}: what `next` may do
+                              \* in BEGIN/END/BEGINFILE/ENDFILE, in a pattern expression and in a
+                              \* root selector, and `exit` in a root selector (statement: open)
 
 VARIABLES prog, sched, si, ctl, frames, sig, retval, out, conds, trues, outcome, open
 vars == <<prog, sched, si, ctl, frames, sig, retval, out, conds, trues, outcome, open>>
@@ -50,6 +51,7 @@ ValueOfName(name) == LET i == FrameOf(name) IN IF i = 0 THEN Unset ELSE frames[i
 
 AtomValue(a) == CASE a.k = "num" -> Num(a.v)
                   [] a.k = "null" -> Null
+                  [] a.k = "retval" -> retval      \* the value of the call just completed
                   [] a.k = "var" -> ValueOfName(a.n)
 AtomOpen(a) == a.k = "var" /\ Captures(a.n)
 AtomFaults(a) == a.k = "faultx"
@@ -95,7 +97,7 @@ Say(entry) == out' = Append(out, <<entry, Len(frames) - 1>>)
 ScheduleOf(p) ==
   LET RuleIdx(kind) == SelectSeq([i \in 1..Len(p.rules) |-> i], LAMBDA i : p.rules[i].kind = kind)
       Acts(kind, el) == [j \in 1..Len(RuleIdx(kind)) |-> [kind |-> kind, ri |-> RuleIdx(kind)[j], el |-> el]]
-  IN Acts("B", 0) \o Acts("BF", 0)
+  IN Acts("B", 0) \o Acts("SEL", 0) \o Acts("BF", 0)
      \o FlattenSeq([e \in 1..p.n |-> Acts("P", e)])
      \o Acts("EF", 0) \o Acts("E", 0)
 
@@ -116,13 +118,49 @@ InitFor(p) ==
 -----------------------------------------------------------------------------
 (* Rule driver (EvalProgram / evalPatternRules / evalRules)                  *)
 
+\* A rule may have a pattern (field pat): [k |-> "none"], [k |-> "const", v |-> BOOLEAN]
+\* or [k |-> "call", f |-> i] (a user function called in the pattern expression).
+PatOf(r) == IF "pat" \in DOMAIN r THEN r.pat ELSE [k |-> "none"]
+Truthy(v) == v.k = "num" /\ v.v # 0
+
+BodyItem(a) == [t |-> "stmt", s |-> prog.rules[a.ri].body, p |-> <<a.ri>>]
+RuleItem(a) == [t |-> "rulek", kind |-> a.kind, el |-> a.el]
+
 StartRule ==
   /\ Idle /\ ctl = <<>> /\ si <= Len(sched)
-  /\ LET a == sched[si] IN
-       /\ ctl' = << [t |-> "stmt", s |-> prog.rules[a.ri].body, p |-> <<a.ri>>],
-                    [t |-> "rulek", kind |-> a.kind, el |-> a.el] >>
-       /\ Say(<<"rule", a.kind, a.ri, a.el>>)
+  /\ LET a == sched[si]
+         pat == PatOf(prog.rules[a.ri])
+     IN CASE pat.k = "none" \/ (pat.k = "const" /\ pat.v) ->
+               /\ ctl' = << BodyItem(a), RuleItem(a) >>
+               /\ Say(<<"rule", a.kind, a.ri, a.el>>)
+               /\ UNCHANGED frames
+          [] pat.k = "const" /\ ~pat.v ->
+               /\ ctl' = << RuleItem(a) >> /\ UNCHANGED <<out, frames>>
+          [] pat.k = "call" ->
+               \* evalRules evaluates the pattern: a call, then its truthiness
+               /\ frames' = <<[name |-> "fn", vars |-> <<>>]>> \o frames
+               /\ ctl' = << [t |-> "stmt", s |-> prog.fns[pat.f].body, p |-> <<100 + pat.f>>],
+                            [t |-> "callk", dst |-> ""], [t |-> "patk", a |-> a], RuleItem(a) >>
+               /\ UNCHANGED out
+  /\ UNCHANGED <<prog, sched, si, sig, retval, conds, trues, outcome, open>>
+
+\* the pattern call returned: run the body iff its value is truthy
+PatternDecide ==
+  /\ Idle /\ TopIs("patk")
+  /\ IF Truthy(retval)
+     THEN /\ ctl' = Push(BodyItem(Top.a)) /\ Say(<<"rule", Top.a.kind, Top.a.ri, Top.a.el>>)
+     ELSE /\ ctl' = Pop /\ UNCHANGED out
   /\ UNCHANGED <<prog, sched, si, frames, sig, retval, conds, trues, outcome, open>>
+
+\* a signal leaves the pattern expression.  exit and faults pass on to the
+\* driver; what `next` means here is open (abandon the element / runtime error)
+PatUnwind ==
+  /\ Running /\ TopIs("patk") /\ sig \in {"next", "exit", "fault"}
+  /\ IF sig = "next"
+     THEN \/ /\ "ends-rule" \in NextOutsidePattern /\ ctl' = Pop /\ UNCHANGED <<sig, outcome>>
+          \/ /\ "runtime-error" \in NextOutsidePattern /\ ctl' = Tail(Pop) /\ sig' = "none" /\ outcome' = "runtime"
+     ELSE ctl' = Pop /\ UNCHANGED <<sig, outcome>>
+  /\ UNCHANGED <<prog, sched, si, frames, retval, out, conds, trues, open>>
 
 \* the rule body completed normally
 EndRule ==
@@ -156,8 +194,16 @@ RuleNextElsewhere ==
 
 \* EvalProgram: `exit` ends the whole run, successfully, END included
 DriverConsumeExit ==
-  /\ Running /\ sig = "exit" /\ TopIs("rulek")
+  /\ Running /\ sig = "exit" /\ TopIs("rulek") /\ Top.kind # "SEL"
   /\ ctl' = Pop /\ sig' = "none" /\ outcome' = "ok"
+  /\ UNCHANGED <<prog, sched, si, frames, retval, out, conds, trues, open>>
+
+\* `exit` inside a root selector: open (ends the run successfully / runtime error)
+SelectorExit ==
+  /\ Running /\ sig = "exit" /\ TopIs("rulek") /\ Top.kind = "SEL"
+  /\ ctl' = Pop /\ sig' = "none"
+  /\ \/ "ends-rule" \in NextOutsidePattern /\ outcome' = "ok"
+     \/ "runtime-error" \in NextOutsidePattern /\ outcome' = "runtime"
   /\ UNCHANGED <<prog, sched, si, frames, retval, out, conds, trues, open>>
 
 \* a fault reaches the driver: the run stops with a runtime error
@@ -234,7 +280,10 @@ TakeCond(b) == /\ conds' = Append(conds, b)
 ExecIf ==
   /\ Idle /\ TopStmt("if")
   /\ IF Top.s.c = "fault"
-     THEN /\ Raise("fault") /\ ctl' = Pop /\ Say(<<"c", Top.p>>) /\ UNCHANGED <<conds, trues>>
+     THEN /\ Raise("fault") /\ ctl' = Pop /\ UNCHANGED <<out, conds, trues>>
+     ELSE IF Top.s.c = "true"      \* a literal condition: no oracle involved
+     THEN /\ ctl' = Push([t |-> "stmt", s |-> Top.s.th, p |-> Append(Top.p, 1)])
+          /\ UNCHANGED <<sig, out, conds, trues>>
      ELSE \E b \in CondChoices :
             /\ TakeCond(b) /\ Say(<<"c", Top.p>>) /\ UNCHANGED sig
             /\ ctl' = IF b THEN Push([t |-> "stmt", s |-> Top.s.th, p |-> Append(Top.p, 1)])
@@ -255,7 +304,11 @@ ExecLoopEnter ==
 LoopTest ==
   /\ Idle /\ TopIs("loop") /\ Top.s.k \in {"while", "for"} /\ Top.ph = "test"
   /\ IF Top.s.c = "fault"
-     THEN /\ Raise("fault") /\ ctl' = Pop /\ Say(<<"c", Top.p>>) /\ UNCHANGED <<conds, trues>>
+     THEN /\ Raise("fault") /\ ctl' = Pop /\ UNCHANGED <<out, conds, trues>>
+     ELSE IF Top.s.c = "true"
+     THEN /\ ctl' = PushOn([t |-> "stmt", s |-> Top.s.b, p |-> Append(Top.p, 1)],
+                           Push([Top EXCEPT !.ph = IF Top.s.k = "for" THEN "post" ELSE "test"]))
+          /\ UNCHANGED <<sig, out, conds, trues>>
      ELSE \E b \in CondChoices :
             /\ TakeCond(b) /\ Say(<<"c", Top.p>>) /\ UNCHANGED sig
             /\ ctl' = IF b THEN PushOn([t |-> "stmt", s |-> Top.s.b, p |-> Append(Top.p, 1)],
@@ -337,14 +390,16 @@ ExecSet ==
   /\ Idle /\ TopStmt("set")
   /\ LET e == Top.s.e IN
      CASE e.k = "call" ->
-            /\ DoCall(e.f, prog.fns[e.f].body, <<100 + e.f>>, e.args, Top.s.n, Pop) /\ UNCHANGED retval
+            /\ IF e.f = 0 THEN DoCall(0, e.fb, Append(Top.p, 1), e.args, Top.s.n, Pop)
+               ELSE DoCall(e.f, prog.fns[e.f].body, <<100 + e.f>>, e.args, Top.s.n, Pop)
+            /\ UNCHANGED retval
        [] e.k = "match" ->
             \* an expression-body match: push the <match> frame, bind, evaluate the atom,
             \* pop the frame, assign
             IF AtomFaults(e.subj) \/ Depth + 1 > CallLimit
             THEN /\ Raise("fault") /\ ctl' = Pop /\ UNCHANGED <<frames, open, retval>>
             ELSE /\ frames' = <<[name |-> "<match>", vars |-> [x \in {e.bind} |-> AtomValue(e.subj)]]>> \o Touch(frames, <<e.subj>>)
-                 /\ ctl' = PushOn([t |-> "matchk", dst |-> Top.s.n, body |-> e.body], Pop)
+                 /\ ctl' = PushOn([t |-> "matchk", dst |-> Top.s.n, body |-> e.body, p |-> Top.p], Pop)
                  /\ open' = (open \/ AtomOpen(e.subj))
                  /\ UNCHANGED <<sig, retval>>
        [] OTHER ->
@@ -366,7 +421,8 @@ CallReturn ==
                                            S == {i \in 1..Len(fr) : Top.dst \in DOMAIN fr[i].vars}
                                        IN S # {} /\ SetMin(S) # 1 /\ SetMin(S) # Len(fr)))
   /\ ctl' = Pop /\ sig' = "none"
-  /\ UNCHANGED <<prog, sched, si, retval, out, conds, trues, outcome>>
+  /\ retval' = IF sig = "return" THEN retval ELSE Null
+  /\ UNCHANGED <<prog, sched, si, out, conds, trues, outcome>>
 
 CallUnwind ==   \* next / exit / fault pass through a call; its frame is released
   /\ Running /\ TopIs("callk") /\ sig \in {"next", "exit", "fault"}
@@ -380,15 +436,23 @@ ExecMatchStmt ==
      THEN /\ Raise("fault") /\ ctl' = Pop /\ UNCHANGED <<frames, open>>
      ELSE /\ frames' = <<[name |-> "<match>", vars |-> [x \in {Top.s.bind} |-> AtomValue(Top.s.subj)]]>> \o Touch(frames, <<Top.s.subj>>)
           /\ ctl' = PushOn([t |-> "stmt", s |-> Top.s.b, p |-> Append(Top.p, 1)],
-                           PushOn([t |-> "matchk", dst |-> "", body |-> [k |-> "none"]], Pop))
+                           PushOn([t |-> "matchk", dst |-> "", body |-> [k |-> "none"], p |-> Top.p], Pop))
           /\ open' = (open \/ AtomOpen(Top.s.subj))
           /\ UNCHANGED sig
   /\ UNCHANGED <<prog, sched, si, retval, out, conds, trues, outcome>>
 
 \* leaving a match: the <match> frame is popped on EVERY path; an expression
 \* body is evaluated inside the frame (the bound name is visible there)
+\* an expression body that is a call: the call runs inside the <match> frame
+MatchBodyCall ==
+  /\ Idle /\ TopIs("matchk") /\ Top.body.k = "call"
+  /\ LET rest == Push([Top EXCEPT !.body = [k |-> "retval"]]) IN
+       IF Top.body.f = 0 THEN DoCall(0, Top.body.fb, Append(Top.p, 1), Top.body.args, "", rest)
+       ELSE DoCall(Top.body.f, prog.fns[Top.body.f].body, <<100 + Top.body.f>>, Top.body.args, "", rest)
+  /\ UNCHANGED <<prog, sched, si, retval, out, conds, trues, outcome>>
+
 MatchLeave ==
-  /\ Running /\ TopIs("matchk")
+  /\ Running /\ TopIs("matchk") /\ (sig = "none" => Top.body.k # "call")
   /\ IF sig = "none" /\ Top.dst # ""
      THEN IF AtomFaults(Top.body)
           THEN /\ frames' = Tail(frames) /\ sig' = "fault" /\ UNCHANGED open
@@ -413,12 +477,12 @@ Done == outcome # "running" /\ UNCHANGED vars
 
 Next ==
   \/ Done
-  \/ StartRule \/ EndRule \/ Finish \/ RuleConsumeNext \/ RuleNextElsewhere
-  \/ DriverConsumeExit \/ DriverFault
+  \/ StartRule \/ PatternDecide \/ PatUnwind \/ EndRule \/ Finish \/ RuleConsumeNext \/ RuleNextElsewhere
+  \/ DriverConsumeExit \/ SelectorExit \/ DriverFault
   \/ ExecPrint \/ ExecShow \/ ExecSignal \/ ExecReturn \/ ExecFault \/ ExecBlock \/ SeqStep
   \/ ExecIf \/ ExecLoopEnter \/ LoopTest \/ ForPost \/ ExecForInEnter \/ ForInNext
   \/ LoopConsumeBreak \/ LoopConsumeContinue
-  \/ ExecCallStmt \/ ExecSet \/ CallReturn \/ CallUnwind \/ ExecMatchStmt \/ MatchLeave
+  \/ ExecCallStmt \/ ExecSet \/ CallReturn \/ CallUnwind \/ ExecMatchStmt \/ MatchBodyCall \/ MatchLeave
   \/ Unwind \/ LoopUnwind
 
 -----------------------------------------------------------------------------
